@@ -3,10 +3,10 @@ known_findings.json.   usage: python3 tools/mergefindings.py <collected.json>"""
 import json, sys
 d = json.load(open("/verif/known_findings.json"))
 new = json.load(open(sys.argv[1]))
-have = set((f.get("obligation"), f.get("match")) for f in d["findings"])
+have = set((f.get("property"), f.get("obligation"), f.get("match")) for f in d["findings"])
 added = 0
 for e in new:
-    k = (e.get("obligation"), e.get("match"))
+    k = (e.get("property"), e.get("obligation"), e.get("match"))
     if k not in have:
         have.add(k)
         d["findings"].append(e)
